@@ -71,8 +71,10 @@ Record ubox := mkU {
   umaxw : ext; umaxh : ext }.
 
 (* a laid out box; `over` = the width equation was over-constrained in the
-   last run of blockLevelWidth_ (the stored right margin is then the specified one) *)
-Inductive lbox := LBox (u : ubox) (over : bool) (cs : list lbox).
+   last run of blockLevelWidth_ (the stored right margin is then the specified one);
+   `hc` = the computed height the box had before layout (None = auto;
+   box.Height after resolvePercentages), kept for the specification *)
+Inductive lbox := LBox (u : ubox) (over : bool) (hc : mf) (cs : list lbox).
 
 Definition Qgtb (a b : Q) : bool := negb (Qle_bool a b).   (* a > b *)
 Definition Qltb (a b : Q) : bool := negb (Qle_bool b a).   (* a < b *)
@@ -263,7 +265,7 @@ Definition set_vmargins (u : ubox) (mt mb : mf) : ubox :=
   mkU (ux u) (uy u) mt (umr u) mb (uml u) (upt u) (upr u) (upb u) (upl u)
       (ubt u) (ubr u) (ubb u) (ubl u) (uw u) (uh u) (uminw u) (uminh u) (umaxw u) (umaxh u).
 
-Definition box_of (b : lbox) : ubox := match b with LBox u _ _ => u end.
+Definition box_of (b : lbox) : ubox := match b with LBox u _ _ _ => u end.
 
 (* ------------------------------------------------------------------ block layout *)
 
@@ -281,6 +283,29 @@ Definition box_of (b : lbox) : ubox := match b with LBox u _ _ => u end.
           ones made on the copies (:956-959). *)
 Record bl_result := mkR { r_box : lbox; r_adj : list Q; r_ct : bool; r_var : list Q }.
 
+(* the loop over the in-flow children, blocks.go:379-469, with inFlowLayout :829-1023.
+   rec c y adj: blockLevelLayout of the child c placed at y (:383-384, :905);
+   first: no child laid out yet; cwc: collapsingWithChildren.
+   Returns the final positionY, *adjoiningMargins, the final value of the slice
+   variable thisBoxAdjoiningMargins points to, and the new children. *)
+Definition kids_loop (rec : node -> Q -> list Q -> bl_result) (cwc : bool) :=
+  fix loop (cs : list node) (first : bool) (position_y : Q) (adj_cur var : list Q) {struct cs}
+    : Q * list Q * list Q * list lbox :=
+    match cs with
+    | [] => (position_y, adj_cur, var, [])
+    | c :: rest =>
+        let r := rec c position_y adj_cur in
+        let cu := box_of (r_box r) in
+        (* :926-954 (no page overflow) *)
+        let position_y := if r_ct r then position_y else border_bottom cu in
+        (* :956-959 *)
+        let adj_next := r_adj r ++ [V (umb cu)] in
+        (* the pointer of :335 is handed to the first child only *)
+        let var := if first && cwc then r_var r else var in
+        let '(py, a, v, ks) := loop rest false position_y adj_next var in
+        (py, a, v, r_box r :: ks)
+    end.
+
 Fixpoint layout_block (n : node) (is_root : bool) (cbw : Q) (cbh : mf) (x y : Q) (adj : list Q)
   : bl_result :=
   match n with
@@ -289,7 +314,9 @@ Fixpoint layout_block (n : node) (is_root : bool) (cbw : Q) (cbh : mf) (x y : Q)
     let u := resolve_percentages s cbw cbh x y in
     let u := set_vmargins u (Some (V (umt u))) (Some (V (umb u))) in
     (* :69-76 no floats: no clearance.  blockBoxLayout :142 *)
-    let '(u, over) := handle_min_max_width u cbw in
+    let uo := handle_min_max_width u cbw in
+    let u := fst uo in
+    let over := snd uo in
     (* blockContainerLayout *)
     let mt := V (umt u) in
     let adj1 := adj ++ [mt] in                                          (* :334 *)
@@ -300,52 +327,43 @@ Fixpoint layout_block (n : node) (is_root : bool) (cbw : Q) (cbh : mf) (x y : Q)
     let position_x := content_box_x u in                                (* :350 *)
     let cw := V (uw u) in
     let chh := uh u in
-    (* the loop over the children, :379-469, with inFlowLayout :829-1023 *)
-    let loop :=
-      fix loop (cs : list node) (first : bool) (position_y : Q) (adj_cur var : list Q)
-               (acc : list lbox) {struct cs} : Q * list Q * list Q * list lbox :=
-        match cs with
-        | [] => (position_y, adj_cur, var, rev acc)
-        | c :: rest =>
-            (* :383-384, :905 *)
-            let r := layout_block c false cw chh position_x position_y adj_cur in
-            let cu := box_of (r_box r) in
-            (* :926-954 (no page overflow) *)
-            let position_y := if r_ct r then position_y else border_bottom cu in
-            (* :956-959 *)
-            let adj_next := r_adj r ++ [V (umb cu)] in
-            let var := if first && cwc then r_var r else var in
-            loop rest false position_y adj_next var (r_box r :: acc)
-        end in
-    let '(position_y, adj_cur, var, kids) := loop cs true position_y adj_cur adj1 [] in
+    let lp := kids_loop (fun c py a => layout_block c false cw chh position_x py a) cwc
+                        cs true position_y adj_cur adj1 in
+    let position_y := fst (fst (fst lp)) in
+    let adj_cur := snd (fst (fst lp)) in
+    let var := snd (fst lp) in
+    let kids := snd lp in
     (* :492-494 *)
     let py2 := if cwc then y +. (collapse_margin var -. mt) else py1 in
     (* :503-522 *)
-    let '(position_y, adj_cur, ct) :=
+    let ct :=
       match cs with
       | [] =>
-          let cm := collapse_margin adj_cur in
-          if (match uh u with None => true | Some hv => Qeq_bool hv 0 end)
-             && Qeq_bool (uminh u) 0 && Qeq_bool (ubt u) 0 && Qeq_bool (upt u) 0
-             && Qeq_bool (ubb u) 0 && Qeq_bool (upb u) 0
-          then (position_y, adj_cur, true)
-          else (position_y +. cm, [], false)
-      | _ :: _ =>
-          if is_auto (uh u) then (position_y, adj_cur, false) else (position_y, [], false)
+          (match uh u with None => true | Some hv => Qeq_bool hv 0 end)
+          && Qeq_bool (uminh u) 0 && Qeq_bool (ubt u) 0 && Qeq_bool (upt u) 0
+          && Qeq_bool (ubb u) 0 && Qeq_bool (upb u) 0
+      | _ :: _ => false
+      end in
+    let pa :=
+      match cs with
+      | [] => if ct then (position_y, adj_cur) else (position_y +. collapse_margin adj_cur, [])
+      | _ :: _ => if is_auto (uh u) then (position_y, adj_cur) else (position_y, [])
       end in
     (* :524-528 *)
-    let '(position_y, adj_cur) :=
+    let pa :=
       if nz (ubb u) || nz (upb u) || is_root
-      then (position_y +. collapse_margin adj_cur, [])
-      else (position_y, adj_cur) in
-    (* :534-546 *)
+      then (fst pa +. collapse_margin (snd pa), [])
+      else pa in
+    let position_y := fst pa in
+    let adj_cur := snd pa in
+    (* :534-546 (the margins collapse through the box: height 0) *)
     let h := match uh u with
-             | None => position_y -. content_box_y_at u py2
+             | None => if ct then 0 else position_y -. content_box_y_at u py2
              | Some hv => hv
              end in
     (* :566 *)
     let h := fmax (fmin_ext h (umaxh u)) (uminh u) in
-    mkR (LBox (set_y_h u py2 (Some h)) over kids) adj_cur ct var
+    mkR (LBox (set_y_h u py2 (Some h)) over (uh u) kids) adj_cur ct var
   end.
 
 (* makePage, pages.go:678-679, 749-750: the root box against the page's content box *)
@@ -357,5 +375,5 @@ End WithArith.
 (* pre-order list of the boxes *)
 Fixpoint flatten (b : lbox) : list (ubox * bool) :=
   match b with
-  | LBox u o cs => (u, o) :: flat_map flatten cs
+  | LBox u o _ cs => (u, o) :: flat_map flatten cs
   end.
